@@ -42,6 +42,18 @@ Theorem C18_history_frame :
          nth i (run zero p ops) ODead = nth i p ODead.
 Proof. exact run_frame. Qed.
 
+(* non-vacuity: ops addressing only the list (slot 1) leave the caller's slice (slot 0) unchanged *)
+Example C18_history_frame_example :
+  (0 < length [OSlice [wi 1]; OLst [wi 1]])%nat /\
+  (forall o : op, In o [AppendValue 1 (wi 2); RemoveAll 1] -> writes o <> Some 0%nat) /\
+  nth 0 (run (wi 0) [OSlice [wi 1]; OLst [wi 1]] [AppendValue 1 (wi 2); RemoveAll 1]) ODead = OSlice [wi 1].
+Proof.
+  assert (H : forall o : op, In o [AppendValue 1 (wi 2); RemoveAll 1] -> writes o <> Some 0%nat).
+  { intros o [<-|[<-|[]]]; discriminate. }
+  split; [vm_compute; lia|]. split; [exact H|].
+  apply (C18_history_frame (wi 0) _ [OSlice [wi 1]; OLst [wi 1]] 0%nat); [vm_compute; lia|exact H].
+Qed.
+
 Theorem C18_product_independent_of_source :
   forall (zero : val) (p : pool) (o : op) (p' : pool) (r : ret) (ops : list op) (src : nat),
          step zero p o = (p', r) ->
@@ -69,11 +81,24 @@ Theorem C18_source_independent_of_product :
          src <> (length p' - 1)%nat -> nth src (run zero p' ops) ODead = nth src p ODead.
 Proof. exact source_independent_of_product. Qed.
 
+(* non-vacuity: AsArray of a list, then writes through the returned array: the list is unchanged *)
+Example C18_source_independent_of_product_example :
+  step (wi 0) [OLst [wi 1; wi 2]] (AsArray 0 []) = ([OLst [wi 1; wi 2]; OSlice [wi 1; wi 2]], RNew) /\
+  writes (AsArray 0 []) <> Some 0%nat /\
+  nth 0 (run (wi 0) [OLst [wi 1; wi 2]; OSlice [wi 1; wi 2]] [SliceSet 1 0 (wi 9); SliceSet 1 1 (wi 9)]) ODead = OLst [wi 1; wi 2].
+Proof. split; [vm_compute; reflexivity|]. split; [discriminate|vm_compute; reflexivity]. Qed.
+
 Theorem C18_iterator_snapshot_stable :
   forall (zero : val) (ops : list op) (p : list obj) (i : nat) (z : val) 
            (s : list val) (k : nat),
          nth i p ODead = OIter z s k -> exists k' : nat, nth i (run zero p ops) ODead = OIter z s k'.
 Proof. exact iter_snapshot_stable. Qed.
+
+Example C18_iterator_snapshot_stable_example :
+  nth 1 [OLst [wi 1; wi 2]; OIter (wi 0) [wi 1; wi 2] 0] ODead = OIter (wi 0) [wi 1; wi 2] 0 /\
+  nth 1 (run (wi 0) [OLst [wi 1; wi 2]; OIter (wi 0) [wi 1; wi 2] 0] [RemoveAll 0; INext 1; AppendValue 0 (wi 5)]) ODead
+    = OIter (wi 0) [wi 1; wi 2] 1.
+Proof. split; [reflexivity|vm_compute; reflexivity]. Qed.
 
 Theorem C18_self_append :
   forall (zero : val) (p : list obj) (o c : nat),
@@ -117,6 +142,13 @@ Theorem C18_self_set :
          nth o (fst (step zero p (SetValues o i c))) ODead /\
          snd (step zero p (SetValues o i o)) = snd (step zero p (SetValues o i c)).
 Proof. exact self_operand_set. Qed.
+
+Example C18_self_set_example :
+  nth 0 (fst (step (wi 0) [OLst [wi 1; wi 2]; OLst [wi 1; wi 2]] (SetValues 0 1 0))) ODead = OLst [wi 1; wi 2] /\
+  nth 0 (fst (step (wi 0) [OLst [wi 1; wi 2]; OLst [wi 1; wi 2]] (SetValues 0 1 1))) ODead = OLst [wi 1; wi 2] /\
+  snd (step (wi 0) [OLst [wi 1; wi 2]; OLst [wi 1; wi 2]] (SetValues 0 2 0)) = RPanic /\
+  snd (step (wi 0) [OLst [wi 1; wi 2]; OLst [wi 1; wi 2]] (SetValues 0 2 1)) = RPanic.
+Proof. repeat split; vm_compute; reflexivity. Qed.
 
 Theorem C18_self_add :
   forall (zero : val) (p : list obj) (o c : nat),
